@@ -1,11 +1,12 @@
 #!/bin/bash
 # seedmatrix.sh: run every kept seeded change against the check of its own property (quick tier)
-# and against the extra checks listed below; results are recorded in seeded/<id>/meta.json.
+# and against the extra checks listed below (SEED_FILTER=<regex on the id> restricts the run); results are recorded in seeded/<id>/meta.json.
 V="${VERIF_HOME:-/verif}"; cd "$V"
-declare -A extra=( [C01-1]=C08 [C04-2]=C08 [C05-3]=C04 [C06-2]=C08 [C06-3]=C08 [C12-1]=C09 [C07-2]=C09 [C13-3]=C06 [C14-1]=C20 [C11-1]=C07 [C13-4]=C08 [C13-6]=C08 [C20-6]=C14 [C08-6]=C06 [C18-6]=C17 [C12-6]=C06 [C10-5]=C07 [C10-6]=C12 [C07-4]=C06 [C07-7]=C09 )
+declare -A extra=( [C01-1]=C08 [C04-2]=C08 [C05-3]=C04 [C06-2]=C08 [C06-3]=C08 [C12-1]=C09 [C07-2]=C09 [C13-3]=C06 [C14-1]=C20 [C11-1]=C07 [C13-4]=C08 [C13-6]=C08 [C20-6]=C14 [C08-6]=C06 [C18-6]=C17 [C12-6]=C06 [C10-5]=C07 [C10-6]=C12 [C07-4]=C06 [C07-7]=C09 [C16-10]=C17 [C04-7]=C08 [C10-7]=C07 [C01-7]=C08 )
 for d in seeded/*/; do
   id=$(basename "$d"); prop=${id%%-*}
   [ -f "$d/patch.diff" ] || continue
+  if [ -n "${SEED_FILTER:-}" ] && ! echo "$id" | grep -Eq "$SEED_FILTER"; then continue; fi
   scripts/seedrun.sh "$V/$d" "$prop" quick | cut -c1-160
   if [ -n "${extra[$id]}" ]; then scripts/seedrun.sh "$V/$d" "${extra[$id]}" quick | cut -c1-160; fi
 done
